@@ -43,13 +43,20 @@ from harness.engine_suites import COMPLETE, CONTINUABLE, HALT, Runner, Trace, pa
 # Signatures (without the `synth:<prop>:` prefix) that fire on the UNCHANGED tree, were adjudicated as real engine defects
 # and wait for a decision: the oracle stays, the REPORTING is off unless VERIF_SYNTH_PENDING=1.  fnmatch patterns.
 PENDING: list[str] = [
-    # R1 (restart dimension, C05)  RestartStageHandler resets the restarted stage and its tasks only (handlers/workflow_control.py,
-    #     `reset_stage_for_retry(stage)`), not its synthetic children (JumpToStage does: _synthetic_reset_mutations).  The re-run
-    #     parent pushes StartStage for before-stages that are already complete - dropped - and nothing ever continues it: RUNNING until
-    #     the CompleteWorkflow re-polls spend the wait budget and fail the workflow.  Proposed: proposed_fixes/R1-...proposed.diff
-    "restart:C05:stuck-until-wait-budget:restarted-parent-children-not-reset",
-    "restart:C05:wedged:restarted-parent-children-not-reset",
 ]
+# R1 (F61 8a51a1b) and R2 (F62 a33e861) were gated here until they were repaired; reported again since then:
+#       # R1 (restart dimension, C05)  RestartStageHandler resets the restarted stage and its tasks only (handlers/workflow_control.py,
+#       #     `reset_stage_for_retry(stage)`), not its synthetic children (JumpToStage does: _synthetic_reset_mutations).  The re-run
+#       #     parent pushes StartStage for before-stages that are already complete - dropped - and nothing ever continues it: RUNNING until
+#       #     the CompleteWorkflow re-polls spend the wait budget and fail the workflow.  Proposed: proposed_fixes/R1-...proposed.diff
+#       "restart:C05:stuck-until-wait-budget:restarted-parent-children-not-reset",
+#       "restart:C05:wedged:restarted-parent-children-not-reset",
+#       # R2 (restart dimension, C05)  RestartStage re-opens the workflow and (F59) leaves a CompleteWorkflow behind; when another stage is
+#       #     still TERMINAL / CANCELED that CompleteWorkflow finalises the workflow again at once (complete_workflow.py, "Any TERMINAL /
+#       #     CANCELED"), the restarted stage's StartStage is then dropped ("workflow complete", start_stage/handler.py) and the stage stays
+#       #     NOT_STARTED; a second restart re-opens the workflow around it: stuck until the wait budget fails it.
+#       "restart:C05:stuck-until-wait-budget:restarted-stage-never-started:StartStage-dropped-by-refinalised-workflow",
+#       "restart:C05:wedged:restarted-stage-never-started:StartStage-dropped-by-refinalised-workflow",
 # P1 (F57 05c2357) was gated here until it was repaired; reported again since then:
 #   # P1 (pause dimension; C05, C17)  CompleteWorkflow handled while the workflow row is PAUSED computes SUCCEEDED / TERMINAL and calls
 #   #     set_workflow_status: PAUSED -> SUCCEEDED / TERMINAL is not in the transition table, InvalidStateTransitionError on every
@@ -344,13 +351,6 @@ def describe_stage(lay: Lay, fin: dict, i: int) -> str:
 
 
 def s_wedge_cause(t: Trace, fin: dict, lay: Lay) -> str:
-    ov = order_violations(t, lay)
-    if ov:
-        return ov[0][0]
-    if t.meta.get("pause") is not None:
-        dl = dead_letters(t)
-        if dl:
-            return dl[0][0]          # the message that would have driven the workflow on was lost to the DLQ
     if t.meta.get("restart"):
         for k_, m_ in enumerate(t.op_msg):
             if m_ and m_.startswith("RR.") and t.audit_len[k_ + 1] > t.audit_len[k_]:
@@ -361,6 +361,20 @@ def s_wedge_cause(t: Trace, fin: dict, lay: Lay) -> str:
                     # RestartStage re-armed the parent and its tasks but left its synthetic children as they were: the re-run
                     # parent starts children that are already complete, their StartStage is dropped, nobody continues the parent
                     return "restarted-parent-children-not-reset"
+                if p_ < lay.n and fin["stages"][p_]["status"] == "NOT_STARTED" and any(
+                        (t.op_msg[j_] or "").startswith(f"SS.{p_}.") and parse_line(t.lines[j_])["wf"] in COMPLETE for j_ in range(k_ + 1, len(t.ops))):
+                    # the re-opened workflow was finalised again (the CompleteWorkflow that RestartStage leaves behind sees another
+                    # TERMINAL / CANCELED stage) before the restarted stage's StartStage was handled; that StartStage is then dropped
+                    # ("workflow complete") and the stage stays NOT_STARTED whatever re-opens the workflow later
+                    return "restarted-stage-never-started:StartStage-dropped-by-refinalised-workflow"
+    ov = order_violations(t, lay)
+    if ov:
+        return ov[0][0]
+    if t.meta.get("pause") is not None:
+        dl = dead_letters(t)
+        if dl:
+            return dl[0][0]          # the message that would have driven the workflow on was lost to the DLQ
+
     for p in range(lay.n):
         a = fin["stages"][p]
         if a["status"] != "RUNNING" or not lay.children_of(p):
@@ -1443,7 +1457,7 @@ def _signatures(t: Trace, mons) -> list[tuple[str, str, str]]:
                 ov = order_violations(t, Lay(t.spec))
                 if t.meta.get("pause") is not None:
                     ov = ov + dead_letters(t)        # pause dimension: a message lost to the DLQ explains what follows
-            if ov and ov[0][0] not in sig:
+            if ov and ov[0][0] not in sig and ":restarted-" not in sig:
                 sig, what = f"{sig}@{ov[0][0]}", f"{what} [earlier in this trace: {ov[0][1]}]"
             out.append((m.__name__, sig, what))
     return out
@@ -1545,8 +1559,20 @@ def run_sym(spec: Spec, ops: list[tuple], wd: Path, drain: bool = True, settle: 
     def find(code):
         return next((i for i, c, _ in r.e.pending() if c == code), None)
 
+    early = False
+
+    def note(rid) -> None:
+        # the recorded schedule hands out a DELAYED row (wait re-poll, delayed CompleteWorkflow ...) while rows without a delay
+        # are pending: on THIS tree the schedule is not budget-respecting (the row may have had no delay on the tree it was
+        # recorded on), so the outcome monitors must not judge it - exactly as for generated traces (Runner.eligible)
+        nonlocal early
+        if rid is not None and rid in r.e.delayed_ids() and any(i not in r.e.delayed_ids() for i, _, _ in r.e.pending()):
+            early = True
+
     for op in ops:
         kind = op[0]
+        if kind in ("d", "x", "k", "i", "n"):
+            note(find(op[1]))
         if kind in ("d", "x"):
             rid = find(op[1])
             if rid is not None:
@@ -1574,7 +1600,9 @@ def run_sym(spec: Spec, ops: list[tuple], wd: Path, drain: bool = True, settle: 
         r.drain(None, "fifo", max_steps=300)
         if settle:
             settle_pause(r)
-    return r.finish(), nprefix
+    t_ = r.finish()
+    t_.early_delayed = early
+    return t_, nprefix
 
 
 def _remap_code(code: str | None, m: dict[int, int | None]) -> str | None:
@@ -1790,8 +1818,13 @@ def run_witness(rp: dict, wd: Path) -> Trace:
         r.drain(None, "fifo", max_steps=300)
         t = r.finish()
     t.meta = fresh_meta(spec, rp.get("meta") or {}, wd)
-    t.respecting = rp.get("respecting", True)
+    t.respecting = rp.get("respecting", True) and not getattr(t, "early_delayed", False)
     return t
+
+
+def witness_family(rp: dict) -> str:
+    meta = rp.get("meta") or {}
+    return "restart" if meta.get("restart") else "pause" if meta.get("pause") is not None else "synth"
 
 
 def pending(sig: str) -> bool:
@@ -1800,9 +1833,10 @@ def pending(sig: str) -> bool:
     return any(fnmatchcase(sig, p) for p in PENDING)
 
 
-def corpus(prop: str) -> list[Trace]:
-    """committed witnesses replays/<prop>/*.json with `kind_synth` (minimised inputs of repaired findings): re-run first on every
-    check, with the reference outcomes recomputed on the tree under test"""
+def corpus(prop: str, family: str = "synth") -> list[Trace]:
+    """committed witnesses replays/<prop>/*.json with `kind_synth` (minimised inputs of repaired findings) that belong to
+    `family` (each family has its own monitors: a restart witness judged by the synthetic-stage transition monitor would be a
+    false alarm): re-run first on every check, with the reference outcomes recomputed on the tree under test"""
     out = []
     d = core.VERIF / "replays" / prop
     if not d.is_dir():
@@ -1812,10 +1846,10 @@ def corpus(prop: str) -> list[Trace]:
         for f in sorted(d.glob("*.json")):
             body = json.loads(f.read_text())
             rp = body.get("replay") or body
-            if not (isinstance(rp, dict) and rp.get("kind_synth")):
+            if not (isinstance(rp, dict) and rp.get("kind_synth")) or witness_family(rp) != family:
                 continue
             t = run_witness(rp, wd)
-            t.tag = "synth/corpus:" + f.stem[:40]
+            t.tag = f"{family}/corpus:" + f.stem[:40]
             out.append(t)
     finally:
         shutil.rmtree(wd, ignore_errors=True)
@@ -1851,8 +1885,7 @@ def run_for(ctx, prop: str, family: str = "synth") -> None:
                     traces.append(es.unpack(d))
     if errors:
         raise core.Infra("synthetic-stage trace production failed: " + errors[0][-1500:])
-    if family == "synth":
-        traces = corpus(prop) + traces
+    traces = corpus(prop, family) + traces
     consume(ctx, prop, traces, family)
     fam = ctx.extra.setdefault({"synth": "synthetic_stage_family", "pause": "pause_resume_dimension", "restart": "restart_dimension"}[family],
                                {"model": "none (implementation-only monitors)", "traces": 0, "per_mode": {}, "wall_s": 0.0})
